@@ -540,7 +540,7 @@ def _run_ismember_signed(case, out: Outcome):
                 for dt in ("int64", "int32"):
                     a = np.array(cols_a, dtype=dt).T.copy()
                     b = np.array(cols_b, dtype=dt).T.copy()
-                    key = (case["family"], sort, sa, sb) if (neg and dt == "int64") else None
+                    key = (case["family"], sort, sa, sb[:1]) if (neg and dt == "int64") else None
                     a0, b0 = a.copy(), b.copy()
                     try:
                         mem, ia = ismember_columns(a, b, sort=sort)
